@@ -1,4 +1,5 @@
 import Whv.Lemmas.ProcC01
+import Whv.Lemmas.Confluence
 /-!
 # C02 — a VAA is published exactly when the node saw the message and quorum signed
 
@@ -241,5 +242,465 @@ theorem local_observation (O : Oracle) (cfg : Config) (s : PState) (g : GSet) (h
   unfold broadcastSignature
   simp only
   exact ⟨_, lookup_alInsert_self _ _ _, rfl, hgs, rfl⟩
+
+/-! ## Order independence (`c02_confluence`)
+
+One chain message `m`, one guardian set `g`, and any list of deliveries made of `message m _` events and observations
+for the digest of `m` — valid ones by members, forged ones, duplicates, by non-members, the node's own loopback — in any
+order. Whether and when the node publishes is characterised by the list alone, and, once the own loopback is known to come
+after the message (causality), by the *set* of events alone. Proofs: `Whv/Lemmas/Confluence.lean`. -/
+
+/-- The digest under which the chain message `m` is aggregated while `g` is the current set. -/
+def digestOfMsg (O : Oracle) (g : GSet) (m : Msg) : Bytes := O.digestOf (vaaOfMsg g.index m).body
+
+/-- The setting: a well-behaved crypto oracle, a guardian set with distinct keys which is the node's current set, a chain
+message not from the governance emitter, and a start state that has neither an aggregation entry for its digest nor a
+stored VAA for its id. -/
+structure Window (O : Oracle) (cfg : Config) (g : GSet) (m : Msg) (s0 : PState) : Prop where
+  oracle : OracleOk O
+  gset : GSetOk g
+  notGov : ¬ (m.emitter = cfg.govEmitter ∧ m.emitterChain = cfg.govChain)
+  cur : s0.gs = some g
+  noEntry : s0.agg.lookup (digestOfMsg O g m) = none
+  noStore : s0.db.lookup (vaaOfMsg g.index m).body.id = none
+
+/-- The deliveries considered: the message `m` itself (at any time), and arbitrary observations for its digest. -/
+def WindowEvents (O : Oracle) (g : GSet) (m : Msg) (es : List Event) : Prop :=
+  ∀ e ∈ es, (∃ now, e = .message m now) ∨ (∃ o now, e = .observation o now ∧ o.hash = digestOfMsg O g m)
+
+/-- A valid observation by a member of `g` (inside a window this is `Accepted` at every state, see `Proc.pre_gate`). -/
+def AcceptedObs (O : Oracle) (g : GSet) (m : Msg) (o : Obs) : Prop :=
+  O.recover (digestOfMsg O g m) o.sig = some (bytesToAddress o.addr) ∧ bytesToAddress o.addr ∈ g.keys
+
+/-- The distinct members of `g` from which `es` contains a valid observation (in guardian-set order). -/
+def acceptedSigners (O : Oracle) (g : GSet) (m : Msg) (es : List Event) : List Addr :=
+  Proc.acceptedSigners O g (digestOfMsg O g m) es
+
+/-- The run over `es` broadcasts the signed VAA `b` at some step. -/
+def PublishedBytes (O : Oracle) (cfg : Config) (s0 : PState) (es : List Event) (b : Bytes) : Prop :=
+  ∃ sf outs, run O cfg s0 es = .ok (sf, outs) ∧ ∃ os ∈ outs, Out.vaa b ∈ os
+
+def Published (O : Oracle) (cfg : Config) (s0 : PState) (es : List Event) : Prop := ∃ b, PublishedBytes O cfg s0 es b
+
+/-- Delivered after the events `pre`, `e` completes the quorum: it is a valid observation by a member, the message has
+been seen before it, and with it at least `quorum` distinct members have signed. -/
+def CompletesQuorum (O : Oracle) (g : GSet) (m : Msg) (pre : List Event) (e : Event) : Prop :=
+  ∃ o now, e = .observation o now ∧ AcceptedObs O g m o ∧ (∃ now', Event.message m now' ∈ pre) ∧
+    quorum g.keys.length ≤ (acceptedSigners O g m (pre ++ [e])).length
+
+/-- Position `k` of `es` completes the quorum. -/
+def CompletesAt (O : Oracle) (g : GSet) (m : Msg) (es : List Event) (k : Nat) : Prop :=
+  ∃ e, es[k]? = some e ∧ CompletesQuorum O g m (es.take k) e
+
+/-- Causality: a valid observation by a member — the node's own loopback, when its key is in the set — is delivered
+after a `message` event (the loopback is *caused* by the message event). -/
+def LoopbackAfterMessage (O : Oracle) (g : GSet) (m : Msg) (es : List Event) : Prop :=
+  ∃ es1 o now es2, es = es1 ++ Event.observation o now :: es2 ∧ AcceptedObs O g m o ∧ ∃ now', Event.message m now' ∈ es1
+
+/-- `acceptedSigners` is what its name says. -/
+theorem mem_acceptedSigners (O : Oracle) (g : GSet) (m : Msg) (es : List Event) (a : Addr) :
+    a ∈ acceptedSigners O g m es ↔
+      a ∈ g.keys ∧ ∃ o now, Event.observation o now ∈ es ∧ O.recover (digestOfMsg O g m) o.sig = some a ∧
+        bytesToAddress o.addr = a := by
+  unfold acceptedSigners Proc.acceptedSigners
+  rw [List.mem_filter, List.contains_iff_mem, mem_accAddrs]
+  constructor
+  · rintro ⟨hk, o, now, he, hacc, rfl⟩
+    exact ⟨hk, o, now, he, ((isAcc_iff _ _ _ _).1 hacc).1, rfl⟩
+  · rintro ⟨hk, o, now, he, hrec, rfl⟩
+    exact ⟨hk, o, now, he, (isAcc_iff _ _ _ _).2 ⟨hrec, hk⟩, rfl⟩
+
+theorem acceptedSigners_nodup (O : Oracle) {g : GSet} (hg : GSetOk g) (m : Msg) (es : List Event) :
+    (acceptedSigners O g m es).Nodup :=
+  Proc.acceptedSigners_nodup hg _ es
+
+/-- The own loopback is such an observation when the node's key is a member and its signer is correct. -/
+theorem own_loopback_accepted (O : Oracle) (cfg : Config) (g : GSet) (m : Msg) (sig tx : Bytes)
+    (hrec : O.recover (digestOfMsg O g m) sig = some (bytesToAddress cfg.ourAddr))
+    (hmem : bytesToAddress cfg.ourAddr ∈ g.keys) :
+    AcceptedObs O g m { addr := cfg.ourAddr, hash := digestOfMsg O g m, sig := sig, txHash := tx } :=
+  ⟨hrec, hmem⟩
+
+private theorem msg_mem_iff {O : Oracle} {g : GSet} {m : Msg} {pre : List Event}
+    (hpre : ∀ x ∈ pre, EvOk m (digestOfMsg O g m) x) :
+    hasMsg pre = true ↔ ∃ now', Event.message m now' ∈ pre := by
+  rw [hasMsg_iff]
+  constructor
+  · rintro ⟨x, hx, hm⟩
+    rcases hpre x hx with ⟨now, rfl⟩ | ⟨o, now, rfl, _⟩
+    · exact ⟨now, hx⟩
+    · simp [isMsg] at hm
+  · rintro ⟨now, h⟩; exact ⟨_, h, rfl⟩
+
+private theorem acc_iff {O : Oracle} {g : GSet} {m : Msg} (o : Obs) (now : Int) :
+    (accAddr O g (digestOfMsg O g m) (.observation o now)).isSome = true ↔ AcceptedObs O g m o := by
+  unfold AcceptedObs
+  rw [← isAcc_iff]
+  by_cases h : isAcc O g (digestOfMsg O g m) o = true <;> simp [accAddr, h]
+
+private theorem completes_iff_trigger {O : Oracle} {g : GSet} {m : Msg} {pre : List Event} {e : Event}
+    (hpre : ∀ x ∈ pre, EvOk m (digestOfMsg O g m) x) :
+    CompletesQuorum O g m pre e ↔ Trigger O g (digestOfMsg O g m) pre e := by
+  constructor
+  · rintro ⟨o, now, rfl, hacc, hm, hq⟩
+    exact ⟨(acc_iff o now).2 hacc, (msg_mem_iff hpre).2 hm, hq⟩
+  · rintro ⟨h1, h2, h3⟩
+    cases e with
+    | observation o now => exact ⟨o, now, rfl, (acc_iff o now).1 h1, (msg_mem_iff hpre).1 h2, h3⟩
+    | _ => simp [accAddr] at h1
+
+private theorem at_iff_split {α : Type} (P : List α → α → Prop) (es : List α) :
+    (∃ k e, es[k]? = some e ∧ P (es.take k) e) ↔ ∃ es1 e es2, es = es1 ++ e :: es2 ∧ P es1 e := by
+  constructor
+  · rintro ⟨k, e, hk, hp⟩
+    refine ⟨es.take k, e, es.drop (k + 1), ?_, hp⟩
+    obtain ⟨hlt, he⟩ := List.getElem?_eq_some_iff.1 hk
+    rw [← he, List.getElem_cons_drop, List.take_append_drop]
+  · rintro ⟨es1, e, es2, rfl, hp⟩
+    exact ⟨es1.length, e, by simp, by simpa using hp⟩
+
+private theorem loopback_afterMsg {O : Oracle} {g : GSet} {m : Msg} {es : List Event}
+    (h : LoopbackAfterMessage O g m es) : AfterMsg O g (digestOfMsg O g m) es := by
+  obtain ⟨es1, o, now, es2, rfl, hacc, now', hm⟩ := h
+  exact ⟨es1, _, es2, rfl, hasMsg_iff.2 ⟨_, hm, rfl⟩, (acc_iff o now).2 hacc⟩
+
+private theorem window_describe {O : Oracle} {cfg : Config} {g : GSet} {m : Msg} {s0 : PState}
+    (hW : Window O cfg g m s0) {es : List Event} (hev : WindowEvents O g m es) :
+    (NoTrig O g (digestOfMsg O g m) [] es ∧
+      ∃ sf outs, run O cfg s0 es = .ok (sf, outs) ∧ Pre O g m (digestOfMsg O g m) es sf ∧ NoVaa outs) ∨
+    (∃ es1 o now es2 s1 outs1 sf outs2,
+      es = es1 ++ Event.observation o now :: es2 ∧ NoTrig O g (digestOfMsg O g m) [] es1 ∧
+      Trigger O g (digestOfMsg O g m) es1 (.observation o now) ∧
+      run O cfg s0 es1 = .ok (s1, outs1) ∧ NoVaa outs1 ∧
+      run O cfg s0 es = .ok (sf, outs1 ++ [Out.vaa (marshal { vaaOfMsg g.index m with
+          sigs := assemble g.keys
+            (recordSig (entryOrFresh s1 (digestOfMsg O g m) now) (bytesToAddress o.addr) o.sig).signatures })] :: outs2) ∧
+      NoVaa outs2 ∧ Post (digestOfMsg O g m) sf ∧
+      C06.Valid (O.recover (digestOfMsg O g m))
+        (assemble g.keys
+          (recordSig (entryOrFresh s1 (digestOfMsg O g m) now) (bytesToAddress o.addr) o.sig).signatures) g.keys ∧
+      (assemble g.keys
+          (recordSig (entryOrFresh s1 (digestOfMsg O g m) now) (bytesToAddress o.addr) o.sig).signatures).length =
+        (Proc.acceptedSigners O g (digestOfMsg O g m) (es1 ++ [.observation o now])).length) :=
+  run_describe hW.oracle cfg hW.gset (d := digestOfMsg O g m) rfl hW.notGov
+    (pre_init hW.cur hW.noEntry hW.noStore) es hev
+
+private theorem published_of_shape {O : Oracle} {cfg : Config} {s0 sf : PState} {es : List Event} {o1 o2 : List (List Out)}
+    {b : Bytes} (hr : run O cfg s0 es = .ok (sf, o1 ++ [Out.vaa b] :: o2)) : Published O cfg s0 es :=
+  ⟨b, sf, _, hr, [Out.vaa b], by simp, by simp⟩
+
+/-- Inside a window the run never panics. -/
+theorem window_runs {O : Oracle} {cfg : Config} {g : GSet} {m : Msg} {s0 : PState}
+    (hW : Window O cfg g m s0) {es : List Event} (hev : WindowEvents O g m es) :
+    ∃ sf outs, run O cfg s0 es = .ok (sf, outs) := by
+  rcases window_describe hW hev with ⟨_, sf, outs, hr, _⟩ | ⟨_, _, _, _, _, _, sf, _, _, _, _, _, _, hr, _⟩
+  · exact ⟨sf, outs, hr⟩
+  · exact ⟨sf, _, hr⟩
+
+private theorem published_iff_trigger {O : Oracle} {cfg : Config} {g : GSet} {m : Msg} {s0 : PState}
+    (hW : Window O cfg g m s0) {es : List Event} (hev : WindowEvents O g m es) :
+    Published O cfg s0 es ↔ ∃ es1 e es2, es = es1 ++ e :: es2 ∧ Trigger O g (digestOfMsg O g m) es1 e := by
+  rcases window_describe hW hev with ⟨hn, sf, outs, hr, _, hnv⟩ |
+    ⟨es1, o, now, es2, s1, outs1, sf, outs2, rfl, _, ht, _, _, hr, _⟩
+  · constructor
+    · rintro ⟨b, sf', outs', hr', os, hos, hb⟩
+      rw [hr] at hr'
+      simp only [Except.ok.injEq, Prod.mk.injEq] at hr'
+      obtain ⟨_, rfl⟩ := hr'
+      exact absurd hb (hnv os hos b)
+    · rintro ⟨es1, e, es2, he, ht⟩
+      exact absurd (by simpa using ht) ((noTrig_iff _ _ _ _ _).1 hn es1 e es2 he)
+  · constructor
+    · intro _; exact ⟨es1, _, es2, rfl, ht⟩
+    · intro _; exact published_of_shape hr
+
+/-- **Characterisation.** The node publishes iff some position of the list completes the quorum: a valid observation by
+a member, delivered after a `message` event, with which at least `quorum` distinct members have signed. -/
+theorem published_iff_completes {O : Oracle} {cfg : Config} {g : GSet} {m : Msg} {s0 : PState}
+    (hW : Window O cfg g m s0) {es : List Event} (hev : WindowEvents O g m es) :
+    Published O cfg s0 es ↔ ∃ k, CompletesAt O g m es k := by
+  rw [published_iff_trigger hW hev]
+  unfold CompletesAt
+  rw [at_iff_split (fun pre e => CompletesQuorum O g m pre e) es]
+  constructor
+  · rintro ⟨es1, e, es2, rfl, ht⟩
+    exact ⟨es1, e, es2, rfl, (completes_iff_trigger (fun x hx => hev x (by simp [hx]))).2 ht⟩
+  · rintro ⟨es1, e, es2, rfl, ht⟩
+    exact ⟨es1, e, es2, rfl, (completes_iff_trigger (fun x hx => hev x (by simp [hx]))).1 ht⟩
+
+/-- **Equivalently**: the final entry for the digest is marked submitted. -/
+theorem published_iff_submitted {O : Oracle} {cfg : Config} {g : GSet} {m : Msg} {s0 : PState}
+    (hW : Window O cfg g m s0) {es : List Event} (hev : WindowEvents O g m es) (sf : PState) (outs : List (List Out))
+    (hr : run O cfg s0 es = .ok (sf, outs)) :
+    Published O cfg s0 es ↔ ∃ st, sf.agg.lookup (digestOfMsg O g m) = some st ∧ st.submitted = true := by
+  rcases window_describe hW hev with ⟨hn, sf', outs', hr', hpre, hnv⟩ |
+    ⟨es1, o, now, es2, s1, outs1, sf', outs2, rfl, _, ht, _, _, hr', _, hpost, _⟩
+  · rw [hr] at hr'
+    simp only [Except.ok.injEq, Prod.mk.injEq] at hr'
+    obtain ⟨rfl, rfl⟩ := hr'
+    constructor
+    · rintro ⟨b, sf', outs', hr', os, hos, hb⟩
+      rw [hr] at hr'
+      simp only [Except.ok.injEq, Prod.mk.injEq] at hr'
+      obtain ⟨_, rfl⟩ := hr'
+      exact absurd hb (hnv os hos b)
+    · rintro ⟨st, hl, hsub⟩
+      have := hpre.sub 0
+      unfold entryOrFresh at this
+      rw [hl] at this
+      simp only at this
+      rw [hsub] at this
+      cases this
+  · rw [hr] at hr'
+    simp only [Except.ok.injEq, Prod.mk.injEq] at hr'
+    obtain ⟨rfl, rfl⟩ := hr'
+    obtain ⟨st, hl, hsub, _⟩ := hpost
+    constructor
+    · intro _; exact ⟨st, hl, hsub⟩
+    · intro _; exact published_of_shape hr
+
+/-- **At most once.** The whole run broadcasts at most one signed VAA — exactly one iff it publishes. -/
+theorem published_at_most_once {O : Oracle} {cfg : Config} {g : GSet} {m : Msg} {s0 : PState}
+    (hW : Window O cfg g m s0) {es : List Event} (hev : WindowEvents O g m es) (sf : PState) (outs : List (List Out))
+    (hr : run O cfg s0 es = .ok (sf, outs)) :
+    vaaCount outs ≤ 1 ∧ (Published O cfg s0 es ↔ vaaCount outs = 1) := by
+  rcases window_describe hW hev with ⟨hn, sf', outs', hr', hpre, hnv⟩ |
+    ⟨es1, o, now, es2, s1, outs1, sf', outs2, rfl, _, ht, _, n1, hr', n2, _⟩
+  · rw [hr] at hr'
+    simp only [Except.ok.injEq, Prod.mk.injEq] at hr'
+    obtain ⟨rfl, rfl⟩ := hr'
+    rw [vaaCount_noVaa hnv]
+    refine ⟨by omega, ?_⟩
+    constructor
+    · rintro ⟨b, sf', outs', hr', os, hos, hb⟩
+      rw [hr] at hr'
+      simp only [Except.ok.injEq, Prod.mk.injEq] at hr'
+      obtain ⟨_, rfl⟩ := hr'
+      exact absurd hb (hnv os hos b)
+    · intro h; cases h
+  · rw [hr] at hr'
+    simp only [Except.ok.injEq, Prod.mk.injEq] at hr'
+    obtain ⟨rfl, rfl⟩ := hr'
+    rw [vaaCount_shape _ n1 n2]
+    refine ⟨by omega, ?_⟩
+    constructor
+    · intro _; rfl
+    · intro _; exact published_of_shape hr
+
+/-- **What is published, and when.** A step that broadcasts a signed VAA broadcasts nothing else; it is the *first*
+position `k` that completes the quorum; and the bytes are the marshalled VAA built from the observed message `m` (so its
+body is exactly the node's own observation) carrying the signatures recorded at that moment, assembled in guardian-set
+order — a `C06.Valid` list for `g.keys`, one signature per distinct accepted signer among `es[0..k]`, at least `quorum`. -/
+theorem published_shape {O : Oracle} {cfg : Config} {g : GSet} {m : Msg} {s0 : PState}
+    (hW : Window O cfg g m s0) {es : List Event} (hev : WindowEvents O g m es) (sf : PState) (outs : List (List Out))
+    (hr : run O cfg s0 es = .ok (sf, outs)) (os : List Out) (hos : os ∈ outs) (b : Bytes) (hb : Out.vaa b ∈ os) :
+    os = [Out.vaa b] ∧
+    ∃ k o now s1 outs1, es[k]? = some (.observation o now) ∧ CompletesAt O g m es k ∧ (∀ j < k, ¬ CompletesAt O g m es j) ∧
+      run O cfg s0 (es.take k) = .ok (s1, outs1) ∧
+      ∃ sigs, sigs = assemble g.keys
+            (recordSig (entryOrFresh s1 (digestOfMsg O g m) now) (bytesToAddress o.addr) o.sig).signatures ∧
+        b = marshal { vaaOfMsg g.index m with sigs := sigs } ∧
+        C06.Valid (O.recover (digestOfMsg O g m)) sigs g.keys ∧
+        sigs.length = (acceptedSigners O g m (es.take (k + 1))).length ∧
+        quorum g.keys.length ≤ sigs.length := by
+  rcases window_describe hW hev with ⟨hn, sf', outs', hr', hpre, hnv⟩ |
+    ⟨es1, o, now, es2, s1, outs1, sf', outs2, rfl, hn, ht, r1, n1, hr', n2, _, hval, hlen⟩
+  · rw [hr] at hr'
+    simp only [Except.ok.injEq, Prod.mk.injEq] at hr'
+    obtain ⟨rfl, rfl⟩ := hr'
+    exact absurd hb (hnv os hos b)
+  · rw [hr] at hr'
+    simp only [Except.ok.injEq, Prod.mk.injEq] at hr'
+    obtain ⟨rfl, rfl⟩ := hr'
+    obtain ⟨hos', rfl⟩ := mem_shape n1 n2 hos hb
+    refine ⟨hos', es1.length, o, now, s1, outs1, by simp, ?_, ?_, by simpa using r1, _, rfl, rfl, hval, ?_, ?_⟩
+    · refine ⟨Event.observation o now, by simp, ?_⟩
+      have : (es1 ++ Event.observation o now :: es2).take es1.length = es1 := by simp
+      rw [this]
+      exact (completes_iff_trigger (fun x hx => hev x (by simp [hx]))).2 ht
+    · rintro j hj ⟨e, hje, hc⟩
+      rw [List.getElem?_append_left hj] at hje
+      rw [List.take_append_of_le_length (by omega)] at hc
+      have hev1 : ∀ x ∈ es1.take j, EvOk m (digestOfMsg O g m) x :=
+        fun x hx => hev x (by simp [List.mem_of_mem_take hx])
+      have htj := (completes_iff_trigger hev1).1 hc
+      obtain ⟨hlt, he⟩ := List.getElem?_eq_some_iff.1 hje
+      have hsplit : es1 = es1.take j ++ e :: es1.drop (j + 1) := by
+        rw [← he, List.getElem_cons_drop, List.take_append_drop]
+      exact (noTrig_iff _ _ _ _ _).1 hn _ _ _ hsplit (by simpa using htj)
+    · have : (es1 ++ Event.observation o now :: es2).take (es1.length + 1) = es1 ++ [Event.observation o now] := by
+        rw [List.take_append, List.take_of_length_le (by omega)]
+        simp
+      rw [this]; exact hlen
+    · rw [hlen]; exact ht.2.2
+
+/-- **Never without the message, never below quorum** (no causality hypothesis needed). -/
+theorem published_needs_message_and_quorum {O : Oracle} {cfg : Config} {g : GSet} {m : Msg} {s0 : PState}
+    (hW : Window O cfg g m s0) {es : List Event} (hev : WindowEvents O g m es) (h : Published O cfg s0 es) :
+    (∃ now, Event.message m now ∈ es) ∧ quorum g.keys.length ≤ (acceptedSigners O g m es).length := by
+  obtain ⟨es1, e, es2, rfl, ht⟩ := (published_iff_trigger hW hev).1 h
+  obtain ⟨h1, h2⟩ := trigger_quorum (es2 := es2) ht
+  exact ⟨(msg_mem_iff hev).1 h1, h2⟩
+
+/-- **Publication depends only on the set of events.** When a valid observation by a member (the own loopback) comes
+after the message, the node publishes iff the list contains the message and valid observations of at least `quorum`
+distinct members — a condition that mentions neither order nor multiplicity nor rejected traffic. -/
+theorem published_iff_quorum {O : Oracle} {cfg : Config} {g : GSet} {m : Msg} {s0 : PState}
+    (hW : Window O cfg g m s0) {es : List Event} (hev : WindowEvents O g m es) (hlb : LoopbackAfterMessage O g m es) :
+    Published O cfg s0 es ↔
+      (∃ now, Event.message m now ∈ es) ∧ quorum g.keys.length ≤ (acceptedSigners O g m es).length := by
+  constructor
+  · exact published_needs_message_and_quorum hW hev
+  · rintro ⟨_, hq⟩
+    exact (published_iff_trigger hW hev).2 (quorum_trigger (loopback_afterMsg hlb) hq)
+
+/-- The accepted signers do not depend on the order of the deliveries … -/
+theorem acceptedSigners_perm (O : Oracle) (g : GSet) (m : Msg) {es es' : List Event} (h : es.Perm es') :
+    acceptedSigners O g m es = acceptedSigners O g m es' :=
+  Proc.acceptedSigners_perm h
+
+/-- … a rejected observation (forged, mis-addressed, by a non-member) contributes nothing … -/
+theorem rejected_contributes_nothing (O : Oracle) (g : GSet) (m : Msg) (es1 es2 : List Event) (o : Obs) (now : Int)
+    (h : ¬ AcceptedObs O g m o) :
+    acceptedSigners O g m (es1 ++ Event.observation o now :: es2) = acceptedSigners O g m (es1 ++ es2) := by
+  apply acceptedSigners_congr
+  intro a
+  have hn : accAddr O g (digestOfMsg O g m) (Event.observation o now) = none := by
+    cases hx : accAddr O g (digestOfMsg O g m) (Event.observation o now) with
+    | none => rfl
+    | some x => exact absurd ((acc_iff o now).1 (by simp [hx])) h
+  have e1 : es1 ++ Event.observation o now :: es2 = (es1 ++ [Event.observation o now]) ++ es2 := by simp
+  rw [e1, accAddrs_append, accAddrs_single_none hn, ← accAddrs_append]
+
+/-- … neither does a `message` event … -/
+theorem message_contributes_nothing (O : Oracle) (g : GSet) (m : Msg) (es1 es2 : List Event) (m' : Msg) (now : Int) :
+    acceptedSigners O g m (es1 ++ Event.message m' now :: es2) = acceptedSigners O g m (es1 ++ es2) := by
+  apply acceptedSigners_congr
+  intro a
+  have e1 : es1 ++ Event.message m' now :: es2 = (es1 ++ [Event.message m' now]) ++ es2 := by simp
+  rw [e1, accAddrs_append, accAddrs_single_none (by rfl), ← accAddrs_append]
+
+/-- … and a duplicate — the same event again, or any further observation of a member already counted — changes nothing. -/
+theorem duplicate_contributes_nothing (O : Oracle) (g : GSet) (m : Msg) (es1 es2 : List Event) (o : Obs) (now : Int)
+    (h : bytesToAddress o.addr ∈ acceptedSigners O g m (es1 ++ es2)) :
+    acceptedSigners O g m (es1 ++ Event.observation o now :: es2) = acceptedSigners O g m (es1 ++ es2) := by
+  apply acceptedSigners_congr
+  intro a
+  have e1 : es1 ++ Event.observation o now :: es2 = (es1 ++ [Event.observation o now]) ++ es2 := by simp
+  cases hx : accAddr O g (digestOfMsg O g m) (Event.observation o now) with
+  | none => rw [e1, accAddrs_append, accAddrs_single_none hx, ← accAddrs_append]
+  | some x =>
+    have hxa : x = bytesToAddress o.addr := by
+      simp only [accAddr] at hx
+      by_cases hacc : isAcc O g (digestOfMsg O g m) o = true
+      · rw [if_pos hacc] at hx; exact (Option.some.inj hx).symm
+      · rw [if_neg hacc] at hx; cases hx
+    have hin : x ∈ accAddrs O g (digestOfMsg O g m) (es1 ++ es2) := by
+      unfold acceptedSigners Proc.acceptedSigners at h
+      rw [List.mem_filter, List.contains_iff_mem] at h
+      rw [hxa]; exact h.2
+    rw [e1, accAddrs_append, accAddrs_single_some hx]
+    rw [accAddrs_append] at hin ⊢
+    simp only [List.mem_append, List.mem_singleton] at hin ⊢
+    constructor
+    · rintro ((h | rfl) | h)
+      · exact Or.inl h
+      · exact hin
+      · exact Or.inr h
+    · rintro (h | h)
+      · exact Or.inl (Or.inl h)
+      · exact Or.inr h
+
+/-- The accepted signers depend only on *which* events occur, not on how often or in which order. -/
+theorem acceptedSigners_same_events (O : Oracle) (g : GSet) (m : Msg) {es es' : List Event}
+    (h : ∀ e, e ∈ es ↔ e ∈ es') : acceptedSigners O g m es = acceptedSigners O g m es' := by
+  apply acceptedSigners_congr
+  intro a
+  rw [mem_accAddrs, mem_accAddrs]
+  constructor
+  · rintro ⟨o, now, he, hx⟩; exact ⟨o, now, (h _).1 he, hx⟩
+  · rintro ⟨o, now, he, hx⟩; exact ⟨o, now, (h _).2 he, hx⟩
+
+/-- **Order and multiplicity independence.** Two causally valid delivery lists with the same *set* of events (any order,
+any duplication): the node publishes in one iff it publishes in the other, and what it publishes is in both cases the VAA
+of the observed message `m` (same version, guardian-set index and body) with a `C06.Valid` signature list of at least
+`quorum` signatures of members of `g`. (The signature subsets themselves may differ: an order that completes the quorum
+early publishes fewer signatures.) -/
+theorem c02_confluence_same_events {O : Oracle} {cfg : Config} {g : GSet} {m : Msg} {s0 : PState}
+    (hW : Window O cfg g m s0) {es es' : List Event} (hev : WindowEvents O g m es) (hsame : ∀ e, e ∈ es ↔ e ∈ es')
+    (hlb : LoopbackAfterMessage O g m es) (hlb' : LoopbackAfterMessage O g m es') :
+    (Published O cfg s0 es ↔ Published O cfg s0 es') ∧
+    ∀ b b', PublishedBytes O cfg s0 es b → PublishedBytes O cfg s0 es' b' →
+      ∃ sigs sigs', b = marshal { vaaOfMsg g.index m with sigs := sigs } ∧
+        b' = marshal { vaaOfMsg g.index m with sigs := sigs' } ∧
+        C06.Valid (O.recover (digestOfMsg O g m)) sigs g.keys ∧ C06.Valid (O.recover (digestOfMsg O g m)) sigs' g.keys ∧
+        quorum g.keys.length ≤ sigs.length ∧ quorum g.keys.length ≤ sigs'.length := by
+  have hev' : WindowEvents O g m es' := fun e he => hev e ((hsame e).2 he)
+  constructor
+  · rw [published_iff_quorum hW hev hlb, published_iff_quorum hW hev' hlb', acceptedSigners_same_events O g m hsame]
+    constructor
+    · rintro ⟨⟨now, h1⟩, h2⟩; exact ⟨⟨now, (hsame _).1 h1⟩, h2⟩
+    · rintro ⟨⟨now, h1⟩, h2⟩; exact ⟨⟨now, (hsame _).2 h1⟩, h2⟩
+  · rintro b b' ⟨sf, outs, hr, os, hos, hb⟩ ⟨sf', outs', hr', os', hos', hb'⟩
+    obtain ⟨_, _, _, _, _, _, _, _, _, _, sigs, _, h1, h2, _, h3⟩ := published_shape hW hev sf outs hr os hos b hb
+    obtain ⟨_, _, _, _, _, _, _, _, _, _, sigs', _, h1', h2', _, h3'⟩ := published_shape hW hev' sf' outs' hr' os' hos' b' hb'
+    exact ⟨sigs, sigs', h1, h1', h2, h2', h3, h3'⟩
+
+/-- **Order independence** (`c02_confluence`): the same for two causally valid permutations of one multiset of deliveries. -/
+theorem c02_confluence {O : Oracle} {cfg : Config} {g : GSet} {m : Msg} {s0 : PState}
+    (hW : Window O cfg g m s0) {es es' : List Event} (hev : WindowEvents O g m es) (hperm : es.Perm es')
+    (hlb : LoopbackAfterMessage O g m es) (hlb' : LoopbackAfterMessage O g m es') :
+    (Published O cfg s0 es ↔ Published O cfg s0 es') ∧
+    ∀ b b', PublishedBytes O cfg s0 es b → PublishedBytes O cfg s0 es' b' →
+      ∃ sigs sigs', b = marshal { vaaOfMsg g.index m with sigs := sigs } ∧
+        b' = marshal { vaaOfMsg g.index m with sigs := sigs' } ∧
+        C06.Valid (O.recover (digestOfMsg O g m)) sigs g.keys ∧ C06.Valid (O.recover (digestOfMsg O g m)) sigs' g.keys ∧
+        quorum g.keys.length ≤ sigs.length ∧ quorum g.keys.length ≤ sigs'.length :=
+  c02_confluence_same_events hW hev (fun _ => hperm.mem_iff) hlb hlb'
+
+/-! Non-vacuity: three guardians (quorum 3), a toy oracle; a parked early signature, a non-member, a duplicate, the own
+loopback after the message. The hypotheses hold and the node publishes. -/
+namespace Example
+def O1 : Oracle :=
+  { recover := fun _ s => if s.length = 65 then some (s.take 20) else none, digestOf := fun _ => [7],
+    sign := fun _ => some (List.replicate 65 1) }
+def cfg1 : Config := { ourAddr := List.replicate 20 1, govChain := 1, govEmitter := [9] }
+def g1 : GSet := { index := 0, keys := [List.replicate 20 1, List.replicate 20 2, List.replicate 20 3] }
+def m1 : Msg :=
+  { txHash := [], tsSec := 0, tsNsec := 0, nonce := 0, sequence := 0, consistency := 0, emitterChain := 2,
+    targetChain := 0, emitter := [5], payload := [] }
+def ob (k : UInt8) : Obs := { addr := List.replicate 20 k, hash := [7], sig := List.replicate 65 k, txHash := [] }
+def s1 : PState := { gs := some g1 }
+def es1 : List Event :=
+  [.observation (ob 2) 0, .message m1 0, .observation (ob 4) 1, .observation (ob 1) 1, .observation (ob 3) 1,
+   .observation (ob 3) 2]
+
+private theorem window1 : Window O1 cfg1 g1 m1 s1 :=
+  ⟨⟨fun _ => rfl, fun h s a hr => by
+      simp only [O1] at hr
+      by_cases hl : s.length = 65
+      · exact hl
+      · rw [if_neg hl] at hr; cases hr⟩,
+   ⟨by decide, by decide⟩, by decide, rfl, rfl, rfl⟩
+
+private theorem events1 : WindowEvents O1 g1 m1 es1 := by
+  intro e he
+  simp only [es1, List.mem_cons, List.not_mem_nil, or_false] at he
+  rcases he with rfl | rfl | rfl | rfl | rfl | rfl
+  · exact Or.inr ⟨_, _, rfl, rfl⟩
+  · exact Or.inl ⟨_, rfl⟩
+  · exact Or.inr ⟨_, _, rfl, rfl⟩
+  · exact Or.inr ⟨_, _, rfl, rfl⟩
+  · exact Or.inr ⟨_, _, rfl, rfl⟩
+  · exact Or.inr ⟨_, _, rfl, rfl⟩
+
+private theorem loopback1 : LoopbackAfterMessage O1 g1 m1 es1 :=
+  ⟨[.observation (ob 2) 0, .message m1 0, .observation (ob 4) 1], ob 1, 1, _, rfl, ⟨by decide, by decide⟩, 0, by simp⟩
+
+example : acceptedSigners O1 g1 m1 es1 = g1.keys := by decide
+
+example : Published O1 cfg1 s1 es1 :=
+  (published_iff_quorum window1 events1 loopback1).2 ⟨⟨0, by simp [es1]⟩, by decide⟩
+end Example
 
 end Whv.C02
